@@ -60,6 +60,8 @@ pub enum RegMode {
     BadSig,
     /// a receipt (extending) that the tower really signed, but for somebody else: the reply names that other user
     OtherUser,
+    /// a properly signed receipt with more slots and an expiry BELOW the one handed out before
+    LowerExpiry,
     NonJson,
     ApiError,
 }
@@ -230,6 +232,21 @@ fn reg_reply(idx: u32, st: &mut TState, req: &Value) -> (u32, Vec<u8>) {
                 available_slots: st.slots,
                 subscription_start: st.start,
                 subscription_expiry: st.expiry,
+                subscription_signature: r.signature().unwrap(),
+            };
+            (200, serde_json::to_vec(&resp).unwrap())
+        }
+        RegMode::LowerExpiry => {
+            st.slots += 100;
+            let Some(uid) = uid else { return (200, b"{\"error\":\"bad user id\",\"error_code\":5}".to_vec()) };
+            let expiry = st.expiry.saturating_sub(5).max(st.start + 1);
+            let mut r = RegistrationReceipt::new(uid, st.slots, st.start, expiry);
+            r.sign(&tower_key(idx).0);
+            let resp = msgs::RegisterResponse {
+                user_id: uid.to_vec(),
+                available_slots: st.slots,
+                subscription_start: st.start,
+                subscription_expiry: expiry,
                 subscription_signature: r.signature().unwrap(),
             };
             (200, serde_json::to_vec(&resp).unwrap())
